@@ -16,6 +16,13 @@ pub struct Case {
     pub lambda2: f64,
     /// indices into the DIPPR pool for the ideal-gas part (totals)
     pub ig: Vec<usize>,
+    /// a component that is present in the model with exactly zero moles (residual identities only)
+    #[serde(default)]
+    pub zero: Option<usize>,
+    /// amounts of the order of feos' reference amount (1 reduced mole = 1/N_A mol, the default of
+    /// State::new when no amount is given) instead of macroscopic ones
+    #[serde(default)]
+    pub tiny: bool,
 }
 
 pub fn decode(g: &mut Gen) -> Case {
@@ -23,11 +30,16 @@ pub fn decode(g: &mut Gen) -> Case {
     let state = gen_state(g, spec.n());
     let lambda2 = g.log_range(1e-3, 1e3);
     let ig = (0..spec.n()).map(|_| g.index(POOLS.dippr.len())).collect();
+    let zero_ok = spec.n() >= 2 && !(spec.family == Family::EPcSaft && spec.source.starts_with("shipped"));
+    let zero = if zero_ok && g.bool(0.12) { Some(g.index(spec.n())) } else { None };
+    let tiny = g.bool(0.25);
     Case {
         spec,
         state,
         lambda2,
         ig,
+        zero,
+        tiny,
     }
 }
 
@@ -37,9 +49,123 @@ const TOL_ID: f64 = 1e-9;
 /// same property at (T, V, N) and (T, lV, lN)
 const TOL_SC: f64 = 1e-8;
 
+/// effective state of a case (zero-mole component, reference-amount scale)
+fn effective_state(case: &Case) -> StateSpec {
+    let mut st = case.state.clone();
+    if case.tiny {
+        st.lambda /= 6.02214076e23;
+    }
+    if let Some(k) = case.zero {
+        let k = k.min(st.x.len() - 1);
+        st.x[k] = 0.0;
+        let sum: f64 = st.x.iter().sum();
+        st.x.iter_mut().for_each(|v| *v /= sum);
+    }
+    st
+}
+
+/// Residual identities and scaling relations for a state in which one component has exactly
+/// zero moles (its ideal-gas terms are singular, its residual chemical potential, dp/dN_i and
+/// dmu/dN derivatives are the infinite-dilution values and must obey the same relations).
+fn check_zero(case: &Case, obs: &mut Obs) {
+    let spec = &case.spec;
+    obs.class("zero-mole component");
+    let Ok(model) = spec.build() else {
+        obs.discard("build");
+        return;
+    };
+    let st = effective_state(case);
+    let Ok(inputs) = state_inputs(spec, &model, &st) else {
+        obs.discard("inputs");
+        return;
+    };
+    let Ok(s) = build_state(&model, &inputs) else {
+        obs.discard("state");
+        return;
+    };
+    use Contributions::Residual as RES;
+    let n = spec.n();
+    let nm = s.moles.to_reduced();
+    let ntot: f64 = nm.sum();
+    let v = s.volume.to_reduced();
+    let t = s.temperature.to_reduced();
+    let rho = s.density.to_reduced();
+    let a = s.residual_helmholtz_energy().to_reduced();
+    if !a.is_finite() {
+        obs.discard(format!("non-finite A_res:{}", spec.label()));
+        return;
+    }
+    let eta = st.f_eta * spec.opts.max_eta;
+    let cond = 1.0 + 1e-2 / eta;
+    let stiff = if spec.has_association() { super::c08::assoc_stiffness(spec, t, rho, &st.x, eta) } else { 0.0 };
+    if !stiff.is_finite() || stiff > 1e12 {
+        obs.discard("association strength overflows (rho*Delta > 1e12)");
+        return;
+    }
+    let tol_id = TOL_ID * cond + 1e-12 * stiff;
+    let tol_sc = TOL_SC * cond + 1e-12 * stiff;
+    let a_0 = contrib_abs(&s, PD::Zeroth);
+    let a_v = contrib_abs(&s, PD::First(DV));
+    let a_t = contrib_abs(&s, PD::First(DT));
+    let a_n: Vec<f64> = (0..n).map(|i| contrib_abs(&s, PD::First(DN(i)))).collect();
+    let a_vv = contrib_abs(&s, PD::Second(DV));
+    let a_vn: Vec<f64> = (0..n).map(|i| contrib_abs(&s, PD::Mixed(DV, DN(i)))).collect();
+    let a_nn: Vec<Vec<f64>> = (0..n).map(|i| (0..n).map(|j| contrib_abs(&s, PD::Mixed(DN(i), DN(j)))).collect()).collect();
+    let p_res = s.pressure(RES).to_reduced();
+    let mu = s.residual_chemical_potential().to_reduced();
+    let dpdn = s.dp_dni(RES).to_reduced();
+    let dmu = s.dmu_dni(RES).to_reduced();
+    // Euler, Gibbs-Duhem (residual parts)
+    {
+        let scale = a_0 + v * a_v + (0..n).map(|i| nm[i] * a_n[i]).sum::<f64>();
+        obs.close_scaled("zero-mole: Euler A = -pV + sum mu N", a, -p_res * v + (&mu * &nm).sum(), tol_id, scale);
+        let t1 = v * s.dp_dv(RES).to_reduced();
+        let t2: f64 = (&dpdn * &nm).sum();
+        obs.close_scaled("zero-mole: V dp_dv + sum N dp_dni = 0", t1 + t2, 0.0, tol_id, v * a_vv + (0..n).map(|i| nm[i] * a_vn[i]).sum::<f64>());
+        for i in 0..n {
+            let lhs: f64 = (0..n).map(|j| nm[j] * dmu[[i, j]]).sum();
+            let scale = (0..n).map(|j| nm[j] * a_nn[i][j]).sum::<f64>() + v * a_vn[i];
+            obs.close_scaled(&format!("zero-mole: sum_j N_j dmu_dni[{i},j] = V dp_dni[{i}]"), lhs, v * dpdn[i], tol_id, scale);
+            for j in i + 1..n {
+                obs.close_scaled(&format!("zero-mole: dmu_dni symmetric [{i},{j}]"), dmu[[i, j]], dmu[[j, i]], tol_id, a_nn[i][j]);
+            }
+        }
+    }
+    // scaling
+    let l = case.lambda2;
+    let inputs2 = (inputs.0, inputs.1 * l, &inputs.2 * l);
+    if let Ok(s2) = build_state(&model, &inputs2) {
+        let mu2 = s2.residual_chemical_potential().to_reduced();
+        let dpdn2 = s2.dp_dni(RES).to_reduced();
+        let dmu2 = s2.dmu_dni(RES).to_reduced();
+        obs.close_scaled("zero-mole: a_res intensive", a / ntot, s2.residual_helmholtz_energy().to_reduced() / (ntot * l), tol_sc, a_0 / ntot);
+        obs.close_scaled("zero-mole: p_res intensive", p_res, s2.pressure(RES).to_reduced(), tol_sc, a_v);
+        obs.close_scaled("zero-mole: s_res intensive", s.residual_entropy().to_reduced() / ntot, s2.residual_entropy().to_reduced() / (ntot * l), tol_sc, a_t / ntot);
+        for i in 0..n {
+            obs.close_scaled(&format!("zero-mole: mu_res[{i}] intensive"), mu[i], mu2[i], tol_sc, a_n[i]);
+            obs.close_scaled(&format!("zero-mole: dp_dni[{i}] ~ 1/l"), dpdn[i] / l, dpdn2[i], tol_sc, a_vn[i] / l);
+            for j in 0..n {
+                obs.close_scaled(&format!("zero-mole: dmu_dni[{i},{j}] ~ 1/l"), dmu[[i, j]] / l, dmu2[[i, j]], tol_sc, a_nn[i][j] / l);
+            }
+        }
+        if (l - 1.0).abs() > 0.01 {
+            obs.nontrivial();
+        }
+    } else {
+        obs.discard("scaled state");
+    }
+}
+
 pub fn check(case: &Case, obs: &mut Obs) {
     let spec = &case.spec;
     obs.class(spec.label());
+    if case.tiny {
+        obs.class("amount of the order of the reference amount (1/N_A mol)");
+    }
+    if case.zero.is_some() {
+        check_zero(case, obs);
+        return;
+    }
     obs.class(format!("n={}", spec.n()));
     let model = match spec.build() {
         Ok(m) => m,
@@ -48,7 +174,8 @@ pub fn check(case: &Case, obs: &mut Obs) {
             return;
         }
     };
-    let inputs = match state_inputs(spec, &model, &case.state) {
+    let eff = effective_state(case);
+    let inputs = match state_inputs(spec, &model, &eff) {
         Ok(i) => i,
         Err(e) => {
             obs.discard(format!("inputs:{e}"));
